@@ -82,7 +82,22 @@ TARGETS: dict[str, tuple[Callable[[], Any], list[bytes], int, int]] = {
     "genreader": (lambda: zoo.GenReaderSer(), B(0, 1, 2, 41, ".", "a"), 5, 6),
     "pickle": (lambda: PickleSerializer(unpickler_cls=_NoGlobals), PICKLE_A, 3, 4),
     "conv/line+int": (lambda: StringLineSerializer("LF"), B("1", "-", "a", "\n", 0xFF, " "), 6, 7),
+    "json/lines/reduced/debug": (lambda: JSONSerializer(debug=True), JSON_RED, 4, 5),
+    "json/raw/reduced/debug": (lambda: JSONSerializer(use_lines=False, debug=True), JSON_RED, 4, 5),
+    "line/CRLF/utf-8/debug": (lambda: StringLineSerializer("CRLF", encoding="utf-8", debug=True), LINE_A, 6, 7),
+    "base64/checksum/debug": (lambda: zoo.by_name("base64/urlsafe/ck=sha/sep=b'\\n'").make().__class__(StringLineSerializer("LF", encoding="utf-8", debug=True), checksum=True, separator=b"\n", debug=True), B64_A, 4, 5),
+    "filebased/len/debug": (lambda: _dbg_file(), B(0, 1, 2, 3, 9, "a", 0xFF), 5, 6),
 }
+
+
+def _dbg_file() -> Any:
+    class DebugLenFile(zoo.LenFileSer):
+        def __init__(self) -> None:
+            from easynetwork.serializers.base_stream import FileBasedPacketSerializer
+
+            FileBasedPacketSerializer.__init__(self, expected_load_error=ValueError, limit=6, debug=True)
+
+    return DebugLenFile()
 CONVERTERS = {"conv/line+int": lambda: zoo.IntStrConverter()}
 
 
@@ -248,6 +263,11 @@ def jobs(tier: str) -> list[dict]:
             parts = 4 if tier == "quick" else 16
             for part in range(parts):
                 out.append({"type": "ladder", "shape": shape, "lines": lines, "part": part, "parts": parts, "tier": tier})
+            # debug=True builds error_info from the exception: same ladders (one part in four at quick)
+            for part in range(parts):
+                if tier == "quick" and part != 0:
+                    continue
+                out.append({"type": "ladder", "shape": shape, "lines": lines, "part": part, "parts": parts, "tier": tier, "debug": True})
     for shape in ("line", "base64"):
         out.append({"type": "ladder2", "shape": shape, "tier": tier})
     return out
@@ -369,8 +389,9 @@ def ladder_values(tier: str) -> list[int]:
 
 def run_ladder(job: dict, res: JobResult) -> None:
     shape = LADDERS[job["shape"]]
-    name = f"json/{'lines' if job['lines'] else 'raw'}/ladder"
-    r = Runner(name, (lambda: JSONSerializer(use_lines=job["lines"])), res, ladder=True)
+    dbg = bool(job.get("debug"))
+    name = f"json/{'lines' if job['lines'] else 'raw'}/ladder" + ("/debug" if dbg else "")
+    r = Runner(name, (lambda: JSONSerializer(use_lines=job["lines"], debug=dbg)), res, ladder=True)
     vals = [v for i, v in enumerate(ladder_values(job["tier"])) if i % job["parts"] == job["part"]]
     signal.signal(signal.SIGALRM, _alarm)
     try:
@@ -429,8 +450,8 @@ def replay(doc: dict) -> tuple[bool, str]:
     res = JobResult()
     if name in TARGETS:
         r = Runner(name, TARGETS[name][0], res, CONVERTERS.get(name))
-    elif name.startswith("json/") and name.endswith("ladder"):
-        r = Runner(name, (lambda: JSONSerializer(use_lines="lines" in name)), res, ladder=True)
+    elif name.startswith("json/") and "ladder" in name:
+        r = Runner(name, (lambda: JSONSerializer(use_lines="lines" in name, debug=name.endswith("/debug"))), res, ladder=True)
     elif name == "line/ladder":
         r = Runner(name, lambda: StringLineSerializer("CRLF", encoding="utf-8"), res, ladder=True)
     else:
